@@ -192,19 +192,24 @@ fn c05(seed: u64) {
     for round in 0..600 {
         let server = round % 2 == 0;
         let digestless = round % 3 == 0;
-        let p1 = if digestless { let mut p = rng.bytes(1536); for b in p[4..8].iter_mut() { *b = 0; } p }
+        // digest-less peers: original-handshake peers send zero in bytes 4..8, others (the crate's own comment names YouTube) a version
+        let p1 = if digestless { let mut p = rng.bytes(1536); if round % 2 == 0 { for b in p[4..8].iter_mut() { *b = 0; } } else { p[4] |= 1; } p }
                  else { let cs = rng.next() % 2 == 0; let k = (rng.next() % 728) as usize; craft_p1(&mut rng, cs, k + if cs { 12 } else { 776 }, own_key(!server)) };
         let trailing_len = match rng.next() % 4 { 0 => 0, 1 => 1, 2 => 128, _ => (rng.next() % 4000) as usize };
         let trailing = rng.bytes(trailing_len);
-        let mut stream = vec![3u8];
-        stream.extend_from_slice(&p1);
-        stream.extend_from_slice(&rng.bytes(1536));
-        stream.extend_from_slice(&trailing);
         let mut h = Handshake::new(role(server));
-        let pre_generated = rng.next() % 2 == 0;
+        // an original-handshake peer ECHOES our packet 1 as its packet 2 (RTMP 1.0 section 5.2.4); other peers send their own bytes.
+        // Echoing needs our packet 1 first, so those rounds generate it up front.
+        let echo_p2 = (round / 6) % 2 == 1 || round % 4 == 1;
+        let pre_generated = echo_p2 || rng.next() % 2 == 0;
         let mut sent = 0usize;
         let mut all_sent: Vec<u8> = Vec::new();
         if pre_generated { let v = h.generate_outbound_p0_and_p1().unwrap_or_default(); sent += v.len(); all_sent.extend(v); }
+        let p2 = if echo_p2 && all_sent.len() >= 1537 { all_sent[1..1537].to_vec() } else { rng.bytes(1536) };
+        let mut stream = vec![3u8];
+        stream.extend_from_slice(&p1);
+        stream.extend_from_slice(&p2);
+        stream.extend_from_slice(&trailing);
         let mut pos = 0usize;
         let mut cuts = Vec::new();
         let mut done = false;
@@ -225,10 +230,10 @@ fn c05(seed: u64) {
                 Ok(HandshakeProcessResult::Completed { response_bytes, remaining_bytes }) => {
                     sent += response_bytes.len(); all_sent.extend_from_slice(&response_bytes);
                     if !exp_done || sent != exp_sent { fail(format!("c05 Completed after {} peer bytes with {} bytes sent (expected completion at 3073, {} sent) server={} cuts={:?}", pos, sent, exp_sent, server, cuts)); }
-                    if remaining_bytes != trailing { fail(format!("c05 leftover bytes differ: got {} bytes, expected {} bytes; first difference at {:?}; server={} cuts={:?}", remaining_bytes.len(), trailing.len(), remaining_bytes.iter().zip(trailing.iter()).position(|(a, b)| a != b), server, cuts)); }
+                    if remaining_bytes != trailing { fail(format!("c05 leftover bytes differ: got {} bytes, expected {} bytes; first difference at {:?}; server={} digestless={} peer-echoes-our-packet-1={} cuts={:?}", remaining_bytes.len(), trailing.len(), remaining_bytes.iter().zip(trailing.iter()).position(|(a, b)| a != b), server, digestless, echo_p2, cuts)); }
                     done = true;
                 }
-                Err(e) => fail(format!("c05 process_bytes returned Err({:?}) after {} peer bytes, server={} digestless={} cuts={:?}", e, pos, server, digestless, cuts)),
+                Err(e) => fail(format!("c05 process_bytes returned Err({:?}) after {} peer bytes, server={} digestless={} peer-echoes-our-packet-1={} cuts={:?}", e, pos, server, digestless, echo_p2, cuts)),
             }
         }
         if !done { fail(format!("c05 handshake not completed after all {} bytes, server={} cuts={:?}", stream.len(), server, cuts)); }
